@@ -364,7 +364,11 @@ def gate_trace_events(traces):
     return evs
 
 
-def _validate_chunk(wd, name, traces, cfg):
+class SoftTimeout(Exception):
+    """a trace validation that was given up (recorded, never a verdict and never an infra failure)"""
+
+
+def _validate_chunk(wd, name, traces, cfg, timeout=2400, soft=False):
     ids = list(traces)
     evs = gate_trace_events(traces)
     if not evs:
@@ -378,7 +382,12 @@ def _validate_chunk(wd, name, traces, cfg):
     mod = write_model(wd, name, spec="TSpec", invariants="", extra_cfg="POSTCONDITION Report\n", cfg=cfg)
     src = open(os.path.join(wd, mod + ".tla")).read().replace("EXTENDS MPBCore", "EXTENDS MPBTrace")
     open(os.path.join(wd, mod + ".tla"), "w").write(src)
-    rc, out = run_tlc_dir(wd, mod, workers=1, env={"CORE_TRACE": tf, "CORE_OUT": of, "JAVA_TOOL_OPTIONS": "-Xss256m"}, timeout=2400)
+    try:
+        rc, out = run_tlc_dir(wd, mod, workers=1, env={"CORE_TRACE": tf, "CORE_OUT": of, "JAVA_TOOL_OPTIONS": "-Xss256m"}, timeout=timeout)
+    except core.Infra:
+        if soft:
+            raise SoftTimeout(name)
+        raise
     if rc != 0 or not os.path.exists(of):
         raise core.Infra("MPBTrace did not finish on %s:\n%s" % (name, out[-2500:]))
     res = json.load(open(of))
@@ -389,13 +398,13 @@ def _validate_chunk(wd, name, traces, cfg):
     return acc, rej, st, tr, len(evs)
 
 
-def validate_traces(wd, name, traces, cfg=None, chunk=20):
+def validate_traces(wd, name, traces, cfg=None, chunk=20, timeout=2400, soft=False):
     """Returns (accepted ids, rejected ids, states, transitions, steps matched).  The traces are validated in
     parallel TLC runs of `chunk` traces each (the search itself is sequential: one register per trace)."""
     from concurrent.futures import ThreadPoolExecutor
     ids = list(traces)
     if len(ids) <= chunk:
-        return _validate_chunk(wd, name, traces, cfg)
+        return _validate_chunk(wd, name, traces, cfg, timeout, soft)
     parts = [ids[i:i + chunk] for i in range(0, len(ids), chunk)]
     acc, rej, st, tr, n = [], [], 0, 0, 0
     with ThreadPoolExecutor(max_workers=core.NCPU) as ex:
